@@ -2,6 +2,7 @@ package main
 
 import (
 	"bufio"
+	"crypto/x509"
 	"encoding/hex"
 	"encoding/json"
 	"fmt"
@@ -17,6 +18,8 @@ type Driver struct {
 	Asks int
 	// AskLog collects question/answer pairs of the current op (for replays)
 	AskLog []json.RawMessage
+	// Pools are the custom root pools of the current op (C15)
+	Pools []*x509.CertPool
 }
 
 func StartDriver(path string) (*Driver, error) {
@@ -72,7 +75,7 @@ func (d *Driver) Call(op M) (M, error) {
 		}
 		if q, ok := m["ask"]; ok {
 			d.Asks++
-			ans := answerAsk(q.(string), m)
+			ans := answerAsk(d, q.(string), m)
 			al, _ := json.Marshal(M{"q": m, "a": ans})
 			d.AskLog = append(d.AskLog, al)
 			line, _ := json.Marshal(M{"ans": ans})
